@@ -59,8 +59,8 @@ type Fields struct {
 	T string   `json:"T"`
 }
 
-var keyPool = []string{"a", "ab", "b/c", "b/d", "b/de", "bc", "c/x/y", "c/x/z", "c/xy", "d"}
-var prefixPool = []string{"", "a", "b", "b/", "b/d", "c/x", "c/x/", "bc", "zz", "c"}
+var keyPool = []string{"a", "ab", "b/c", "b/d", "b/de", "bc", "c/x/y", "c/x/z", "c/xy", "d", "e:1", "e:2"}
+var prefixPool = []string{"", "a", "b", "b/", "b/d", "c/x", "c/x/", "bc", "zz", "c", "e:", "e"}
 var strPool = []string{"", "alpha", "beta", "alphabet", "x y", "Zed"}
 var intPool = []int64{-5, 0, 1, 7, 42, 1 << 40, 1 << 53, 1<<53 + 1, 1<<62 + 3}
 var floatPool = []float64{-1.5, 0, 0.5, 7, 1e9}
